@@ -437,6 +437,21 @@ func callSucceeded(c *kit.Ctx, call *ssa.Call, errIdx int) *kit.Flow {
 	return c.AtomFlow(fn, func(a kit.Atom) bool { return a.IsNilCmp(true, isErr) }, nil)
 }
 
+// notYetExecuted: the flow "instruction site has not executed on any path to
+// here" (entry true, false from site on). Built without callee summaries:
+// site is usually a call to a module function, and a summary of the callee
+// (which cannot contain site) would re-establish the fact right after it.
+func notYetExecuted(c *kit.Ctx, fn *ssa.Function, site ssa.Instruction) *kit.Flow {
+	fl := &kit.Flow{P: c.Prog, Fn: fn, Entry: true}
+	fl.Instr = func(ins ssa.Instruction, in bool) bool {
+		if ins == site {
+			return false
+		}
+		return in
+	}
+	return fl.Solve()
+}
+
 // ---- CFG reachability -------------------------------------------------------
 
 // reaches reports whether instruction b can execute after instruction a.
